@@ -5,6 +5,7 @@ executable `dassh_model` (everything it imports is Mathlib-free).
 -/
 import Dassh.Model.AxialMesh
 import Dassh.Model.Mesh
+import Dassh.Model.Peaks
 
 open Dassh.Model
 
@@ -56,6 +57,15 @@ def handle (line : String) : String :=
     match floatList a, floatList b with
     | some xr, some xc => "ok " ++ showMatrix (Mesh.c2f xr xc)
     | _, _ => "bad-op"
+  | "peak" :: rest =>
+    match floatList rest with
+    | some vs =>
+      let rec pairs : List Float → List (Float × Float)
+        | a :: b :: t => (a, b) :: pairs t
+        | _ => []
+      let r := Peaks.run ((0.0 : Float), (0.0 : Float)) (pairs vs)
+      "ok " ++ showFloats [r.1, r.2]
+    | none => "bad-op"
   | _ => "bad-op"
 
 partial def loop (h : IO.FS.Stream) : IO Unit := do
